@@ -509,6 +509,24 @@ class LenEval:
                     continue
                 except Unknown:
                     raise Unknown("extension of unknown length")
+            # n = K - len(v);  if n > 0: v.extend([c] * n)      (padding written with its own guard: the same as the unguarded form)
+            if isinstance(st, ast.If) and not st.orelse and len(st.body) == 1 and isinstance(st.body[0], ast.Expr) and isinstance(st.body[0].value, ast.Call) \
+                    and isinstance(st.body[0].value.func, ast.Attribute) and st.body[0].value.func.attr == "extend" \
+                    and isinstance(st.body[0].value.func.value, ast.Name) and len(st.body[0].value.args) == 1 and st.body[0].value.func.value.id in env:
+                from .packed import single_defs, resolve_names
+                sd = {k_: v_ for k_, v_ in single_defs(fn).items() if isinstance(v_, ast.BinOp)}
+                v = st.body[0].value.func.value.id
+                arg = resolve_names(st.body[0].value.args[0], sd)
+                k = self._pad_amount(arg, v, ci)
+                t = resolve_names(st.test, sd)
+                guard_ok = False
+                if k is not None and isinstance(t, ast.Compare) and len(t.ops) == 1:
+                    tt = norm(t).replace(" ", "")
+                    guard_ok = tt in (f"{k}-len({v})>0", f"{k}-len({v})>=1", f"len({v})<{k}", f"{k}>len({v})", f"0<{k}-len({v})")
+                if k is not None and guard_ok:
+                    lo, hi = env[v]
+                    env[v] = (max(lo, k), max(hi, k))
+                    continue
             # for … in ITER: v += [a, b] / v.append(x) / v.extend([a, b])
             if isinstance(st, ast.For) and not st.orelse and len(st.body) == 1:
                 b = st.body[0]
